@@ -1,6 +1,6 @@
 #!/bin/bash
 # run every claimed check at the given tier (default quick); prints one line per check
-cd /verif; tier=${1:-quick}
+cd "$(dirname "$0")/.."; tier=${1:-quick}
 for p in $(python3 -c "import json; print(' '.join(c['property_id'] for c in json.load(open('MANIFEST.json'))['checks']))"); do
   s=$(date +%s); out=$(./check $p --tier $tier 2>&1); rc=$?; e=$(( $(date +%s) - s ))
   echo "$p rc=$rc ${e}s $(echo "$out" | grep -c '^VIOLATION') violations, $(echo "$out" | grep -c '^KNOWN-FINDING') known; $(echo "$out" | grep -E '^(HARNESS|VIOLATION)' | head -1 | cut -c1-150)"
